@@ -232,7 +232,13 @@ func c03Mutants(e *gen.Expr) []c03Mutant {
 			c.Arg = "Zzf"
 			c.Fmt = strings.Replace(c.Fmt, x.R.Arg+"(", "Zzf(", 1)
 			add(replacePath(e, pth, &gen.Expr{R: &c, Kids: x.Kids}), "unknown-function")
-			variadic := x.R.Arg == "Sum" || x.R.Arg == "Fast" || x.R.Arg == "Pack"
+			variadic := x.R.Arg == "Sum" || x.R.Arg == "Fast" || x.R.Arg == "Pack" || x.R.Arg == "PickV"
+			if x.R.Arg == "PickV" {
+				// one fixed parameter before the variadic ones: no argument at all is too few
+				c0 := *x.R
+				c0.In, c0.Fmt = nil, "PickV()"
+				add(replacePath(e, pth, &gen.Expr{R: &c0}), "not-enough-arguments")
+			}
 			if !variadic {
 				// arity + 1
 				c2 := *x.R
@@ -264,7 +270,7 @@ func c03Mutants(e *gen.Expr) []c03Mutant {
 			}
 			anyParam := x.R.Arg == "Fast" || x.R.Arg == "Pick" || x.R.Arg == "Pack" || x.R.Arg == "Second" || x.R.Arg == "TakesAny" || x.R.Arg == "IsNil"
 			for i, s := range x.R.In {
-				if scalar(s.T) && !anyParam {
+				if scalar(s.T) && !anyParam && !(x.R.Arg == "PickV" && i > 0) {
 					add(replacePath(e, fmt.Sprintf("%s.%d", pth, i), wrong(s.T)), "argument-type at call "+x.R.Arg)
 				}
 			}
